@@ -377,6 +377,13 @@ pub fn run_supply_check(check: &str, tier: Tier, seed: u64, index: u64, scratch:
             }
         }
     }
+    if check == "C15" && !t.root.layout.inspect.is_empty() && !t.root.layout.steps.is_empty() && fr.chance(1, 3) {
+        // an inspection that bears the name of a step (names need not be unique across the two lists)
+        let si = if fr.chance(1, 2) { t.root.layout.steps.len() - 1 } else { fr.idx(t.root.layout.steps.len()) };
+        let n = t.root.layout.steps[si].name.clone();
+        t.root.layout.inspect[0].name = n;
+        t.labels.push("INSPECTION-NAMED-LIKE-STEP".into());
+    }
     if check == "C15" && fr.chance(1, 3) {
         // the caller asks for a named summary
         t.step_name = Some(gen::simple_name(&mut fr));
